@@ -38,7 +38,7 @@ pub(crate) struct InternalObserver<T> {
     pub(crate) state: Cell<ObserverState>,
     observing: Incr<T>,
     weak_self: Weak<Self>,
-    on_update_handlers: RefCell<HashMap<SubscriptionToken, OnUpdateHandler<T>>>,
+    on_update_handlers: RefCell<HashMap<SubscriptionToken, Rc<RefCell<OnUpdateHandler<T>>>>>,
     next_subscriber: Cell<SubscriptionToken>,
 }
 
@@ -145,33 +145,36 @@ impl<T: Value> ErasedObserver for InternalObserver<T> {
         }
     }
     fn run_all(&self, input: &Node, node_update: NodeUpdateDelayed, now: StabilisationNum) {
-        let mut handlers = self.on_update_handlers.borrow_mut();
+        /* An on-update handler may unsubscribe itself or another handler of this observer (e.g.
+        through [WeakState::unsubscribe] with its own token), or subscribe a new one. So the
+        map must not stay borrowed while handlers run: iterate over a snapshot. */
+        #[allow(unused_mut)]
+        let mut handlers: Vec<(SubscriptionToken, Rc<RefCell<OnUpdateHandler<T>>>)> = self
+            .on_update_handlers
+            .borrow()
+            .iter()
+            .map(|(token, handler)| (*token, handler.clone()))
+            .collect();
         #[cfg(cormacrelf_incremental_rs_verif)]
         if let Some(ascending) = crate::verif_knobs::handler_order() {
-            let mut tokens: Vec<SubscriptionToken> = handlers.keys().copied().collect();
-            tokens.sort_by_key(|t| t.1);
+            handlers.sort_by_key(|(token, _)| token.1);
             if !ascending {
-                tokens.reverse();
+                handlers.reverse();
             }
-            for token in tokens {
-                let Some(handler) = handlers.get_mut(&token) else { continue };
-                match self.state.get() {
-                    Created | Unlinked => panic!(),
-                    Disallowed => (),
-                    InUse => handler.run(input, node_update, now),
-                }
-            }
-            return;
         }
-        for (id, handler) in handlers.iter_mut() {
-            tracing::trace!("running update handler with id {id:?}");
+        for (token, handler) in handlers {
+            tracing::trace!("running update handler with id {token:?}");
+            // unsubscribed by a handler that ran before it in this same round
+            if !self.on_update_handlers.borrow().contains_key(&token) {
+                continue;
+            }
             /* We have to test [state] before each on-update handler, because an on-update
             handler might disable its own observer, which should prevent other on-update
             handlers in the same observer from running. */
             match self.state.get() {
                 Created | Unlinked => panic!(),
                 Disallowed => (),
-                InUse => handler.run(input, node_update, now),
+                InUse => handler.borrow_mut().run(input, node_update, now),
             }
         }
     }
@@ -181,7 +184,10 @@ impl<T: Value> ErasedObserver for InternalObserver<T> {
         let mut subs: Vec<_> = match self.on_update_handlers.try_borrow() {
             Ok(handlers) => handlers
                 .iter()
-                .map(|(tok, h)| (tok.1, h.verif_dump()))
+                .map(|(tok, h)| {
+                    let text = h.try_borrow().map_or("?running".to_string(), |h| h.verif_dump());
+                    (tok.1, text)
+                })
                 .collect(),
             Err(_) => vec![(-1, "?borrowed".to_string())],
         };
@@ -269,7 +275,9 @@ impl<T: Value> InternalObserver<T> {
             Created | InUse => {
                 let token = self.next_subscriber.get();
                 self.next_subscriber.set(token.succ());
-                self.on_update_handlers.borrow_mut().insert(token, handler);
+                self.on_update_handlers
+                    .borrow_mut()
+                    .insert(token, Rc::new(RefCell::new(handler)));
                 match self.state.get() {
                     Created => {
                         /* We'll bump [observing.num_on_update_handlers] when [t] is actually added to
